@@ -5,40 +5,48 @@ Generator : a scenario = 1-4 history files in a scratch $XONSH_DATA_DIR (generat
             with a pre-boot opening timestamp so the unlock path triggers; open or closed; in
             history_json/, in the backwards-compatible directory or behind a custom
             $XONSH_HISTORY_FILE; an optional corrupt member: truncated / garbage / zero-length /
-            plain JSON) + ONE history-rewriting operation run on a real JsonHistory of the session
-            that owns one of the files: flush() of 1-5 buffered commands (flusher thread),
-            flush(at_exit=True) (direct and through the closure XonshSession.load registers for
-            atexit / fatal signals), a flush triggered by append() reaching the buffer size,
-            delete(pattern), erasedups(), the GC file enumeration JsonHistoryGC.files() (the unlock
-            rewrite), run_gc(size, force) and the GC thread a starting session launches.
-            clear() is excluded (it is meant to destroy).
+            plain JSON / cut inside the index) + ONE history-rewriting operation run on a real
+            JsonHistory of the session that owns one of the files: flush() of 1-5 buffered commands
+            (flusher thread), flush(at_exit=True) (direct and through the closure
+            XonshSession.load registers for atexit / fatal signals), a flush triggered by append()
+            reaching the buffer size, delete(pattern), erasedups(), the GC file enumeration
+            JsonHistoryGC.files() (the unlock rewrite), run_gc(size, force) and the GC thread a
+            starting session launches.  Scenarios are drawn by Hypothesis, stratified by operation
+            kind so every kind is present in every run.  clear() is excluded (meant to destroy).
 Enumeration: the operation is run once in a forked child with counting wrappers around the
             file-system entry points (open / io.open incl. os.fdopen and pathlib, text-file
-            read / write / close, os.open / os.write, os.replace / rename, os.remove / unlink,
-            os.truncate / ftruncate, tempfile.mkstemp) restricted to the data dir -> op trace of
-            length N.  Then, each in a fresh fork on a freshly materialised copy of the scenario:
-            EVERY crash point k in 0..N-1 (os._exit(9) before op k; unflushed user-space buffers are
-            lost, as with kill -9), for every write op a crash after a PARTIAL write of m bytes (all
-            m for writes <= 64 bytes, else 0, 1, 57, 69, n/2, n-2, n-1), and EVERY single fault: op k
-            raises OSError(errno) and the operation continues (errno per op class: ENOSPC / EIO /
-            EACCES / EMFILE; a failing write leaves half of its bytes behind).
+            read / write / close, binary opens, os.open / os.write, os.replace / rename,
+            os.remove / unlink, os.truncate / ftruncate, tempfile.mkstemp) restricted to the data
+            dir -> op trace of length N (self-check: every file that changed must be explained by a
+            wrapped op, else harness error).  Then, each in a fresh fork on a freshly materialised
+            copy of the scenario: EVERY crash point k in 0..N-1 (os._exit(9) before op k; unflushed
+            user-space buffers are lost, as with kill -9), for every write op a crash after a
+            PARTIAL write of m bytes (all m for writes <= 64 bytes, else 0, 1, 57, 69, n/2, n-2,
+            n-1), and EVERY single fault: op k raises OSError(errno) and the operation continues
+            (errno per op class out of ENOSPC / EIO / EACCES / EMFILE; a failing write leaves half
+            of its bytes behind).  Each fault run reports the op it hit; a mismatch with the
+            reference trace is a harness error (op numbering must be reproducible).
 Oracle    : in the parent, after the child is gone.  For every history file that existed before:
-            still present (run_gc may remove exactly what the un-faulted run removes), and its
-            content is either byte-identical to before, or LazyJSON(f).load() succeeds and equals
-            the complete old or the complete new version (new = what the un-faulted run wrote;
-            the clock is owned by the harness so the two are comparable).  Anything else - empty,
+            still present (only a GC pass with a limit that really constrains the collection may
+            remove files, and never a loadable live-locked one - which files it picks is C14), and
+            its content is either byte-identical to before, or LazyJSON(f).load() succeeds and equals
+            the complete old version, the complete new version (= what the un-faulted run wrote;
+            the clock is owned by the harness so the two are comparable) or, for a stale locked
+            file under GC, the complete old version with the lock cleared.  Anything else - empty,
             truncated, unloadable, a third command list - is a failure.  Left-over *.json.tmp
             files are allowed.  The un-faulted run is itself checked against a model written from
             the property text (flush: old + buffered; delete: the filtered list; erasedups: a
-            sub-sequence that keeps at least one copy of every command; GC: same commands,
-            stale lock cleared).
-SQLite    : a syscall-level pass: a small driver process runs append / delete / erasedups / gc /
-            first-touch of a legacy (pre-WAL, pre-frequency-column) database under
-            `strace -f -e inject=<write,pwrite64,fsync,fdatasync,ftruncate,unlink,rename...>:signal=KILL:when=K`
-            for every K (thorough; a sample in quick).  Oracle: the database opens,
-            PRAGMA integrity_check = ok, the rows are exactly the old set, the new set, or (append)
-            old + a prefix of the appended commands.  The same pass is run for the JSON backend
-            (thorough) as a cross-check of the Python-level op model.
+            sub-sequence that keeps at least one copy of every command; GC: same commands, a live
+            session's file stays locked).
+SQLite    : a syscall-level pass: a small driver process (this file, --driver) runs append /
+            delete / erasedups / gc, also as first touch of a legacy (pre-WAL, pre-frequency-column)
+            database, under `strace -f -e inject=<syscall>:signal=KILL:when=K` for every
+            write-class syscall (write, pwrite64, fsync, fdatasync, ftruncate, unlink, rename ...)
+            and every K it reaches after the operation started (strace counts per syscall and per
+            tracee); all points in thorough, an even sample of 24 per case in quick.  Oracle: the
+            database opens, PRAGMA integrity_check = ok, the rows are exactly the old set, the new
+            set, or (append) old + a prefix of the appended commands.  The same pass is run for
+            the JSON backend (thorough) as a cross-check of the Python-level op model.
 Known     : C13-F1 (GC unlock rewrite is an in-place open(f, 'w')), C13-F2 (flush treats an
             OSError while *reading* its intact file as "corrupt, start empty" and replaces the
             file with only the buffered commands).  Narrow predicates is_f1 / is_f2; exactly those
@@ -92,7 +100,7 @@ FLUSH_KINDS = ("flush", "flush_exit", "flush_hook", "autoflush")
 GC_KINDS = ("gc_files", "run_gc", "gc_startup")
 OP_KINDS = FLUSH_KINDS + ("delete", "erasedups") + GC_KINDS
 
-MUTATING = ("open-w", "fdopen-w", "osopen-w", "write", "oswrite", "close-w", "mkstemp", "replace", "rename",
+MUTATING = ("open-w", "fdopen-w", "osopen-w", "write", "bwrite", "oswrite", "close-w", "mkstemp", "replace", "rename",
             "remove", "unlink", "truncate", "ftruncate")
 ERRNOS = {
     "open-r": ("EACCES", "EIO", "EMFILE"),
@@ -104,6 +112,7 @@ ERRNOS = {
     "osopen-w": ("ENOSPC", "EACCES", "EIO"),
     "mkstemp": ("ENOSPC", "EACCES", "EIO"),
     "write": ("ENOSPC", "EIO"),
+    "bwrite": ("ENOSPC", "EIO"),
     "oswrite": ("ENOSPC", "EIO"),
     "close-w": ("ENOSPC", "EIO"),
     "replace": ("ENOSPC", "EACCES", "EIO"),
@@ -251,10 +260,13 @@ def load_state(path, raw):
     if key in cache:
         return cache[key]
     xlj = _state["xlj"]
+    probe = os.path.join(_state["base"], "probe-%d.json" % os.getpid())   # never trust what is at `path` now
     try:
         if len(raw) == 0:
             raise ValueError("zero-length file")
-        lj = xlj.LazyJSON(path)
+        with open(probe, "wb") as f:
+            f.write(raw)
+        lj = xlj.LazyJSON(probe)
         d = lj.load()
         if not isinstance(d, dict) or not isinstance(d.get("cmds"), list):
             raise ValueError("loaded value is not a history mapping: %r" % (type(d).__name__,))
@@ -401,8 +413,15 @@ def _install(inj):
         if act is not None:
             inj.fail(act, label)
         if "b" in mode:
-            # binary handles: the open is an op, the I/O on them is not wrapped
-            return o_open(file, mode, buffering, encoding, errors, newline, closefd, opener)
+            # binary handles: the I/O on them is not wrapped (shutil uses sendfile on the raw fds); a writable
+            # one gets a synthetic op right after the open = "the data has not been written yet"
+            f = o_open(file, mode, buffering, encoding, errors, newline, closefd, opener)
+            if writing:
+                act = inj.op("bwrite", label)
+                if act is not None:
+                    f.close()
+                    inj.fail(act, label)
+            return f
         raw = o_open(file, mode.replace("t", "") + "b", -1, None, None, None, closefd, opener)
         try:
             f = CText(raw, encoding=encoding or "utf-8", errors=errors, newline=newline)
@@ -869,6 +888,12 @@ class Prepared:
             raw = self.new_snap[e["rel"]]
             if raw is not None:
                 self.new_states[e["rel"]] = load_state(e["path"], raw)
+        for e in self.entries:        # self-check: every change on disk is explained by a wrapped op
+            if self.new_snap[e["rel"]] != e["bytes"] and not any(
+                    t[0] in MUTATING and e["rel"] in t[1].split(" -> ") for t in self.trace):
+                raise common.HarnessError("%s changed during %s but no wrapped file-system op touched it: the "
+                                          "operation uses an entry point the injector does not cover (trace %r)" % (
+                                              e["rel"], scn["op"]["kind"], self.trace))
         self.clean_problems = model_check_clean(scn, self.entries, self.old_states, self.new_snap)
         if self.ref_exc:
             self.clean_problems.append("un-faulted operation raised %s" % self.ref_exc)
@@ -913,16 +938,22 @@ class Prepared:
                      if point["mode"] == "crash" else "%s injected at op %d (%s %s)" % (point["errno"], k, opk[0], opk[1]))
             fails.append(Failure(kind, {"scenario": scn, "point": point},
                                  "%s: %s; %s" % (scn["op"]["kind"], where, detail), finding=finding,
-                                 bucket="%s:%s:%s:%s" % (finding or kind, scn["op"]["kind"], point["mode"], opk[0])))
+                                 bucket="%s:%s:%s" % (finding or ("unloadable" if kind == "empty" else kind),
+                                                      op_family(scn["op"]["kind"]), opk[0])))
         return fails, tol
+
+
+def op_family(kind):
+    return "flush" if kind in FLUSH_KINDS else "gc" if kind in GC_KINDS else kind
 
 
 def scn_key(scn):
     return json.dumps(scn, sort_keys=True)
 
 
-def explore_scenario(scn, stats, tolerate=True):
-    """Enumerate every point of one scenario.  Returns list of failures (also appended to stats)."""
+def explore_scenario(scn, stats, tolerate=True, only=None):
+    """Enumerate every point of one scenario (only=(mode, op kind at k) restricts the enumeration; used
+    while shrinking).  Returns the list of failures."""
     P = Prepared(scn)
     kind = scn["op"]["kind"]
     key0 = scn_key(scn)
@@ -943,9 +974,11 @@ def explore_scenario(scn, stats, tolerate=True):
     stats.case((key0, "clean"), False, ["op:" + kind, "mode:none"])
     if P.clean_problems:
         f = Failure("no-fault-run-damages", {"scenario": scn, "point": None}, "; ".join(P.clean_problems[:3]),
-                    bucket="clean:" + kind)
+                    bucket="clean:" + op_family(kind))
         fails.append(f)
     for point in enumerate_points(P.trace):
+        if only is not None and (point["mode"], P.trace[point["k"]][0]) != only:
+            continue
         fs, tol = P.run(point, tolerate=tolerate, stats=stats)
         nt = point_nontrivial(P.trace, point)
         mode = ("partial" if point.get("m") is not None else "crash") if point["mode"] == "crash" else "fault:" + point["errno"]
@@ -964,21 +997,32 @@ def explore_scenario(scn, stats, tolerate=True):
 # generation
 
 
-def scenario_strategy():
+OP_WEIGHTS = (("flush", 2), ("flush_exit", 1), ("flush_hook", 1), ("autoflush", 1), ("delete", 2), ("erasedups", 2),
+              ("gc_files", 1), ("run_gc", 2), ("gc_startup", 2))
+
+
+def scenario_strategy(kind=None):
     from hypothesis import strategies as st
 
     cmd = st.tuples(st.sampled_from(INPS), st.sampled_from([0, 0, 0, 1, 127]))
 
+    kind0 = kind
+
     @st.composite
     def scenarios(draw):
-        kind = draw(st.sampled_from(OP_KINDS + ("flush", "delete", "erasedups", "run_gc", "gc_startup")))
+        kind = kind0 or draw(st.sampled_from(OP_KINDS + ("flush", "delete", "erasedups", "run_gc", "gc_startup")))
         nfiles = draw(st.integers(1, 4))
         own = draw(st.integers(0, nfiles - 1))
-        corrupt_at = draw(st.sampled_from([None, None] + list(range(nfiles))))
+        corrupt_at = draw(st.integers(0, nfiles - 1)) if draw(st.sampled_from([False, False, False, True])) else None
+        # operations that only rewrite under a precondition get it most of the time
+        stale_at = draw(st.integers(0, nfiles - 1)) if kind in GC_KINDS and draw(st.sampled_from([True, True, True, False])) else None
+        cmd_here = cmd
+        if kind == "erasedups" and draw(st.booleans()):
+            cmd_here = st.tuples(st.sampled_from(INPS[:3]), st.sampled_from([0, 1]))
         files = []
         for i in range(nfiles):
             ncmd = draw(st.sampled_from([0, 1, 2, 3, 3, 4, 5, 8]))
-            cmds = [list(draw(cmd)) for _ in range(ncmd)]
+            cmds = [list(draw(cmd_here)) for _ in range(ncmd)]
             if i == own:
                 lock = draw(st.sampled_from(["live", "live", "live", "stale", "no"]))
                 where = draw(st.sampled_from(["hist", "hist", "hist", "custom", "data"]))
@@ -988,6 +1032,8 @@ def scenario_strategy():
                                             else ["no", "no", "no", "stale", "live"]))
                 where = draw(st.sampled_from(["hist", "hist", "hist", "data"]))
                 closed = draw(st.booleans()) if lock != "live" else False
+            if stale_at == i:
+                lock, closed = "stale", (closed if i != own else False)
             fs = {"sid": "s%d" % i, "cmds": cmds, "lock": lock, "closed": closed, "where": where,
                   "env": draw(st.booleans()), "old": draw(st.booleans())}
             if corrupt_at == i:
@@ -1033,8 +1079,17 @@ def generate_scenarios(seed, n):
             seen.add(k)
             box.append(scn)
 
-    common.run_given(scenario_strategy(), body, seed, n)
-    return box
+    total = sum(w for _, w in OP_WEIGHTS)
+    per_kind = []
+    for ki, (kind, w) in enumerate(OP_WEIGHTS):      # every operation kind gets its share in every run
+        start = len(box)
+        common.run_given(scenario_strategy(kind), body, seed * 131 + ki, max(1, (n * w) // total))
+        per_kind.append(box[start:])
+    # interleave so that every worker shard sees every kind
+    out = []
+    for j in range(max(len(x) for x in per_kind)):
+        out.extend(x[j] for x in per_kind if j < len(x))
+    return out
 
 
 def _shrink_candidates(scn):
@@ -1069,8 +1124,9 @@ def _shrink_candidates(scn):
             yield c
 
 
-def shrink_scenario(scn, bucket, seconds=15.0):
-    """Greedy deterministic minimisation: the smaller scenario must still fail in the same bucket."""
+def shrink_scenario(scn, bucket, only, seconds=15.0):
+    """Greedy deterministic minimisation: the smaller scenario must still fail in the same bucket
+    (only the points of the failing class - same mode, same kind of op - are re-enumerated)."""
     deadline = _real_time.time() + seconds
     best = None
     progress = True
@@ -1080,7 +1136,7 @@ def shrink_scenario(scn, bucket, seconds=15.0):
             if _real_time.time() > deadline:
                 break
             try:
-                hits = [g for g in explore_scenario(cand, Stats()) if g.bucket == bucket]
+                hits = [g for g in explore_scenario(cand, Stats(), only=only) if g.bucket == bucket]
             except common.HarnessError:
                 continue
             if hits:
@@ -1102,7 +1158,7 @@ def worker_json(arg):
     out = []
     for n, (b, f) in enumerate(found.items()):
         if n < 3 and f.case.get("point") is not None:
-            g = shrink_scenario(f.case["scenario"], b)
+            g = shrink_scenario(f.case["scenario"], b, (f.case["point"]["mode"], b.rsplit(":", 1)[1]))
             if g is not None:
                 f = g
         out.append(f)
@@ -1289,10 +1345,10 @@ def strace_point(case, ddir, ref, K):
             integ, rows = sqlite_rows(db)
         except sqlite3.Error as e:
             return Failure("sqlite-unreadable", full, "kill at %s of sqlite %s: database does not open: %s" % (
-                K, op["kind"], e), bucket="sqlite-unreadable:" + op["kind"])
+                K, op["kind"], e), bucket="sqlite-unreadable")
         if integ != ["ok"]:
             return Failure("sqlite-integrity", full, "kill at %s of sqlite %s: integrity_check = %r" % (
-                K, op["kind"], integ[:3]), bucket="sqlite-integrity:" + op["kind"])
+                K, op["kind"], integ[:3]), bucket="sqlite-integrity")
         old, new = ref["old"], ref["new"]
         norm = lambda rs: [r[:5] for r in rs]            # noqa: E731  (frequency column may not exist yet)
         ok = rows == old or rows == new or (case.get("legacy") and norm(rows) in (norm(old), norm(new)))
@@ -1302,7 +1358,7 @@ def strace_point(case, ddir, ref, K):
             lost = [r for r in norm(old) if r not in norm(rows)] if op["kind"] == "append" else []
             return Failure("sqlite-third-state", full, "kill at %s of sqlite %s: %d rows, neither the old %d nor the new %d%s" % (
                 K, op["kind"], len(rows), len(old), len(new), " (lost %r)" % lost[:3] if lost else ""),
-                bucket="sqlite-third-state:" + op["kind"])
+                bucket="sqlite-third-state")
         return None
     entries = ref["entries"]
     snap = snapshot(entries)
@@ -1321,7 +1377,8 @@ def strace_point(case, ddir, ref, K):
 
 
 def check_strace_case(case):
-    _setup_for_parent()
+    if not _state:
+        raise common.HarnessError("_setup() must run first")
     ddir = os.path.join(_state["base"], "strace-replay")
     data0 = _state["data"]
     try:
@@ -1337,35 +1394,28 @@ def check_strace_case(case):
         shutil.rmtree(ddir, ignore_errors=True)
 
 
-def _setup_for_parent():
-    if not _state:
-        raise common.HarnessError("_setup() must run first")
-
-
 def strace_cases(seed, n_sql, n_json):
     """A fixed, seed-determined family (laid out with random.Random, not inside a property)."""
     import random
 
     rnd = random.Random(seed)
     out = []
-    for _ in range(n_sql):
-        nrows = rnd.choice([1, 3, 6, 12, 40])
-        rows = [[rnd.choice(INPS), rnd.choice([0, 0, 1]), "s%d" % rnd.randint(0, 2)] for _ in range(nrows)]
-        kind = rnd.choice(["append", "append", "delete", "erasedups", "gc", "append"])
+    kinds = ["delete", "erasedups", "append", "delete", "erasedups", "gc", "append"]
+    for i in range(n_sql):
+        nrows = [6, 12, 3, 40, 9, 1][i % 6] if i % 5 else rnd.randint(1, 60)
+        pool = INPS[: rnd.choice([3, 5, len(INPS)])]
+        rows = [[rnd.choice(pool), rnd.choice([0, 0, 1]), "s%d" % rnd.randint(0, 2)] for _ in range(nrows)]
+        kind = kinds[i % len(kinds)]
         op = {"kind": kind}
         if kind == "append":
             op["cmds"] = [[rnd.choice(INPS), rnd.choice([0, 1])] for _ in range(rnd.randint(1, 3))]
         elif kind == "delete":
-            op["pattern"] = rnd.choice(PATTERNS)
+            op["pattern"] = rnd.choice([".*", "(ls|cd)", "l", "echo.*", "ls", rnd.choice(PATTERNS)])
         elif kind == "gc":
             op["size"] = [rnd.choice([0, 1, max(nrows // 2, 1), nrows, nrows + 5]), "commands"]
-        out.append({"sqlite": True, "rows": rows, "legacy": rnd.random() < 0.35, "op": op})
+        out.append({"sqlite": True, "rows": rows, "legacy": i % 3 == 2, "op": op})
     if n_json:
-        from hypothesis import strategies as st  # noqa: F401
-
-        box = []
-        common.run_given(scenario_strategy(), box.append, seed, n_json)
-        for scn in box[:n_json]:
+        for scn in generate_scenarios(seed + 7, n_json)[:n_json]:
             out.append({"strace": True, "scenario": scn})
     return out
 
@@ -1480,17 +1530,28 @@ def have_strace():
         return False
 
 
+def _dev_stride():
+    """VERIF_C13_STRIDE=k (development only): 1/k of the scenarios, to smoke-test the thorough tier."""
+    try:
+        return max(1, int(os.environ.get("VERIF_C13_STRIDE") or 1))
+    except ValueError:
+        return 1
+
+
 def main(run):
     _setup(run.scratch)
     common.replay_tier(run, _replay_case)
     procs = max(1, min(16, int(os.environ.get("VERIF_PROCS") or 16)))
     nw = 16
-    scns = generate_scenarios(run.seed, run.n(224, 9600))
+    stride = _dev_stride()
+    if stride > 1:
+        run.stats.notes.append("development run: VERIF_C13_STRIDE=%d" % stride)
+    scns = generate_scenarios(run.seed, run.n(140, 7000) // stride)
     common.pool_map(run, __name__, "worker_json", [(scns[i::nw], run.scratch) for i in range(nw) if scns[i::nw]], procs=procs)
     run.extra["exhaustive_subspace"] = ("per explored scenario: every crash point before each Python-level file-system op, "
                                         "every listed partial-write length, every single injected OSError")
     if have_strace():
-        n_sql, n_json, maxp = run.n(16, 400), run.n(0, 200), run.n(6, 0)
+        n_sql, n_json, maxp = run.n(16, 400 // stride), run.n(0, 200 // stride), run.n(24, 0)
         cases = strace_cases(run.seed, n_sql, n_json)
         chunks = [cases[i::nw] for i in range(nw)]
         common.pool_map(run, __name__, "worker_strace",
